@@ -344,24 +344,56 @@ func c15Walk(c *ctx, u *universe, worlds, ops, emitProb, maxCases int) {
 		w := u.stdWorld(nSh, sysShard, distinctGas(uint64(10+7*wi), 3))
 		st := c15NewState()
 		c15Populate(u, w, st)
+		u.rich = false
+		var tour []func() *worldOp
+		if wi%2 == 1 { // every other world: the rich holdings and the fixed tour of DESIGN 4.2, filtered by the same disciplines
+			u.onStep = func(sr *stepResult) { st.after(sr) }
+			u.populateRich(w)
+			u.onStep = nil
+			tour = richTour(u, w)
+		}
+		ti := 0
+		var pending []*worldOp
 		g := newGen(c, u, w)
 		g.wTransfer, g.wSupply, g.wSystem, g.wAccount, g.wDeliver, g.wHostile = 34, 22, 16, 4, 14, 10
 		c15Scan(c, w, st, nil, nil)
 		var hist []string
 		hrec := c.startHistory(w)
 		done := 0
-		for attempts := 0; done < ops && attempts < 20*ops; attempts++ {
-			op := g.randomOp()
+		total := ops
+		for attempts := 0; done < total && attempts < 20*ops+4*len(tour); attempts++ {
+			var op *worldOp
+			fromTour := false
+			switch {
+			case len(pending) > 0:
+				op, pending = pending[0], pending[1:]
+				total++
+			case ti < len(tour):
+				op = tour[ti]()
+				ti++
+				total++
+				fromTour = true
+			default:
+				op = g.randomOp()
+			}
 			if why := st.admit(w, op); why != "" {
+				if fromTour {
+					total--
+				}
 				c.count("c15/not-issued/" + why)
 				continue
 			}
 			key := c05Hash(fmt.Sprint(wi), c05StateDigest(shardMaps(w, false)), op.String())
 			sr := w.step(op)
+			if fromTour {
+				for _, m := range sr.NewMsgs {
+					pending = append(pending, &worldOp{Kind: opDeliver, ID: m.ID, Gas: m.GasLimit})
+				}
+			}
 			hist = append(hist, op.String())
 			hrec.add(op)
 			done++
-			if done == 40 || done == ops {
+			if done == 40 || done == total {
 				c.emitHistory(hrec, w, fmt.Sprintf("C15 walk: history of world %d, first %d operations (seed %d)", wi, done, c.seed))
 			}
 			if sr.Skipped {
